@@ -417,6 +417,31 @@ def native_sequences(chk):
             chk.violation('%s:pattern-order' % cat, 'analyze_dir depends on the order of the configured patterns', {'observed': fwd})
         else:
             chk.ok()
+        # siblings that are not analysed (documentation, build output, test contracts, empty directories), at both ends of the listing: on a
+        # file system that lists by creation history (tmpfs: newest first) the same tree is created contracts-first and contracts-last
+        import shutil, tempfile
+        shm = '/dev/shm' if os.path.isdir('/dev/shm') and os.access('/dev/shm', os.W_OK) else chk.native.dir
+        contracts = [('Main.sol', t), ('Aaa.sol', tw), ('sub/Mid.sol', tw), ('sub/Main.sol', shifted)]
+        others = [('README.md', '# readme\n'), ('.gitkeep', ''), ('notes', 'no extension\n'), ('Main.t.sol', t), ('sub/abi.json', '{}\n'), ('sub/Mid.t.sol', tw)]
+        for what, order in (('created before the contracts', others + contracts), ('created after the contracts', contracts + others),
+                            ('created between the contracts', contracts[:1] + others[:3] + contracts[1:3] + others[3:] + contracts[3:])):
+            base = tempfile.mkdtemp(prefix='solstat-verif-c15-', dir=shm)
+            try:
+                os.makedirs(os.path.join(base, 'sub'))
+                os.makedirs(os.path.join(base, 'empty'))
+                for nm, content in order:
+                    open(os.path.join(base, nm), 'w').write(content)
+                got, want, raw = dl.native_union(chk, cat, base, names)
+                chk.states += 1
+                if got is None or sorted(got) != sorted(want):
+                    missing = sorted(set(want) - set(got or []))
+                    chk.violation('%s:siblings:not-analysed-entries' % cat, 'analyze_dir on a directory whose other entries (%s) are %s: returned %r, the per-file union is %r (missing %r)' % (
+                        ', '.join(n for n, _ in others), what, got if got is not None else raw, want, missing),
+                                  {'job': 'analyze_dir_files', 'category': cat, 'patterns': names, 'files': order, 'listing_by_creation': shm == '/dev/shm', 'expected': want, 'observed': got})
+                else:
+                    chk.ok()
+            finally:
+                shutil.rmtree(base, ignore_errors=True)
     chk.sample({'native sequences': 'equal-length twin before / interleaved, reversed+repeated patterns, other category first, siblings in a directory; threads are outside the claim'})
 
 
@@ -428,6 +453,8 @@ def dir_model(chk, cat):
     variants = [base_ents, [('file', 'A.sol', 'a')] + base_ents, base_ents + [('dir', 'd', [('file', 'B.sol', 'b')])],
                 [('dir', 'd', base_ents), ('file', 'C.sol', 'c')],
                 base_ents + [('dir', 'd', [('file', 'Main.sol', 'same1')])],                      # same base name below
+                [('file', 'README.md', 'x1')] + base_ents + [('file', 'Main.t.sol', 'x2')],     # entries that are not analysed
+                base_ents + [('file', 'notes', 'x3'), ('dir', 'empty', [])],
                 [('dir', 'core', base_ents), ('dir', 'periphery', [('file', 'Main.sol', 'same2')])]]   # same base name beside
     seen = set()
     for ents in variants:
